@@ -6,10 +6,14 @@ import (
 	"encoding/json"
 	"errors"
 	"fmt"
+	"io"
 	"io/fs"
+	"os"
 	"path"
+	"path/filepath"
 	"sort"
 	"strings"
+	"sync"
 	"syscall"
 	"testing"
 	"testing/fstest"
@@ -38,7 +42,9 @@ type Layer struct {
 	// Kind: "" = fstest.MapFS (implements Stat / ReadFile / ReadDir / Glob itself, answers a path
 	// below a file with not-exist); "strict" = the same content behind an fs.FS that has ONLY
 	// Open and answers a path below a file the way an operating system does: with a
-	// "not a directory" error, which is not fs.ErrNotExist.
+	// "not a directory" error, which is not fs.ErrNotExist; "sub" = the content one directory
+	// down in a bigger MapFS, reached through fs.Sub; "dirfs" = the content in a real directory
+	// behind os.DirFS (OS error values, OS listing order, no Glob / ReadFile of its own).
 	Kind string `json:"kind,omitempty"`
 }
 
@@ -103,10 +109,64 @@ func build(l Layer, idx int) fs.FS {
 		return nil
 	}
 	m := buildMap(l, idx)
-	if l.Kind == "strict" {
+	switch l.Kind {
+	case "strict":
 		return strictFS{m}
+	case "sub":
+		// the same content one directory down in a bigger file system, reached through fs.Sub
+		big := fstest.MapFS{"other/readme": &fstest.MapFile{Data: []byte("outside")}, "root/in": &fstest.MapFile{Mode: fs.ModeDir | 0o755}}
+		for p, f := range m {
+			big["root/in/"+p] = f
+		}
+		sub, err := fs.Sub(big, "root/in")
+		if err != nil {
+			panic(err)
+		}
+		return sub
+	case "dirfs":
+		// the same content in a real directory (os.DirFS); removed by dirCleanup
+		dir, err := os.MkdirTemp("", "verif-c18-")
+		if err != nil {
+			panic(err)
+		}
+		dirMu.Lock()
+		dirs = append(dirs, dir)
+		dirMu.Unlock()
+		var names []string
+		for p := range m {
+			names = append(names, p)
+		}
+		sort.Strings(names)
+		for _, p := range names {
+			f := m[p]
+			full := filepath.Join(dir, filepath.FromSlash(p))
+			if f.Mode.IsDir() {
+				_ = os.MkdirAll(full, 0o755)
+				continue
+			}
+			_ = os.MkdirAll(filepath.Dir(full), 0o755)
+			if err := os.WriteFile(full, f.Data, 0o644); err != nil {
+				panic(err)
+			}
+			_ = os.Chmod(full, f.Mode.Perm()|0o400)
+			_ = os.Chtimes(full, f.ModTime, f.ModTime)
+		}
+		return os.DirFS(dir)
 	}
 	return m
+}
+
+var dirMu sync.Mutex
+var dirs []string
+
+// dirCleanup removes the real directories made for "dirfs" layers so far.
+func dirCleanup() {
+	dirMu.Lock()
+	for _, d := range dirs {
+		_ = os.RemoveAll(d)
+	}
+	dirs = nil
+	dirMu.Unlock()
 }
 
 func buildMap(l Layer, idx int) fstest.MapFS {
@@ -161,6 +221,7 @@ func children(m map[string]Entry, dir string) map[string]Entry {
 }
 
 func check(c Case) error {
+	defer dirCleanup()
 	if len(c.Then) > 0 {
 		return checkMutate(c)
 	}
@@ -425,6 +486,113 @@ func checkStack(c Case, o *vuego.OverlayFS) error {
 			return fmt.Errorf("Glob(%q)=%v want %v", pat, got, want)
 		}
 	}
+	if allNil {
+		return nil
+	}
+	// --- other doors to the same content: Open + the file's own methods, fs.Sub, fs.WalkDir
+	for _, p := range paths {
+		h, ok := first(cl, nils, p)
+		f, err := o.Open(p)
+		if !ok {
+			if err == nil {
+				_ = f.Close()
+				return fmt.Errorf("Open(%q): path is in no layer but Open succeeded", p)
+			}
+			if !errors.Is(err, fs.ErrNotExist) {
+				return fmt.Errorf("Open(%q): path is in no layer, want not-exist, got %v", p, err)
+			}
+		} else {
+			if err != nil {
+				return fmt.Errorf("Open(%q): layer %d has it, got error %v", p, h.layer, err)
+			}
+			st, serr := f.Stat()
+			if serr != nil {
+				_ = f.Close()
+				return fmt.Errorf("Open(%q).Stat(): %v", p, serr)
+			}
+			if st.IsDir() != h.e.Dir {
+				_ = f.Close()
+				return fmt.Errorf("Open(%q).Stat().IsDir=%v, but the first layer having it (%d) says dir=%v", p, st.IsDir(), h.layer, h.e.Dir)
+			}
+			if !h.e.Dir {
+				data, rerr := io.ReadAll(f)
+				if rerr != nil || string(data) != h.e.Content {
+					_ = f.Close()
+					return fmt.Errorf("Open(%q) + ReadAll = %q, %v; want %q from layer %d", p, data, rerr, h.e.Content, h.layer)
+				}
+				if st.Size() != int64(len(h.e.Content)) {
+					_ = f.Close()
+					return fmt.Errorf("Open(%q).Stat().Size=%d want %d from layer %d", p, st.Size(), len(h.e.Content), h.layer)
+				}
+			}
+			_ = f.Close()
+		}
+		// a file below a directory, reached through fs.Sub of the overlay
+		if i := strings.LastIndex(p, "/"); i > 0 {
+			sub, err := fs.Sub(o, p[:i])
+			if err != nil {
+				return fmt.Errorf("fs.Sub(overlay, %q): %v", p[:i], err)
+			}
+			data, err := fs.ReadFile(sub, p[i+1:])
+			switch {
+			case !ok:
+				if err == nil || !errors.Is(err, fs.ErrNotExist) {
+					return fmt.Errorf("ReadFile(fs.Sub(overlay, %q), %q): path is in no layer, want not-exist, got %q,%v", p[:i], p[i+1:], data, err)
+				}
+			case h.e.Dir:
+				if err == nil {
+					return fmt.Errorf("ReadFile(fs.Sub(overlay, %q), %q): a directory in layer %d, but got content %q", p[:i], p[i+1:], h.layer, data)
+				}
+			default:
+				if err != nil || string(data) != h.e.Content {
+					return fmt.Errorf("ReadFile(fs.Sub(overlay, %q), %q) = %q, %v; want %q from layer %d", p[:i], p[i+1:], data, err, h.e.Content, h.layer)
+				}
+			}
+		}
+	}
+	// fs.WalkDir over the overlay visits exactly what the union model has: the listing of a
+	// directory is the union over the layers in which it is a directory, and whether an entry
+	// is descended into is decided by the uppermost layer that lists it
+	var wantWalk []string
+	var walk func(p string, dir bool)
+	walk = func(p string, dir bool) {
+		wantWalk = append(wantWalk, p)
+		if !dir {
+			return
+		}
+		union := map[string]bool{}
+		for i := range cl {
+			if nils[i] {
+				continue
+			}
+			if e, has := cl[i][p]; p != "." && !(has && e.Dir) {
+				continue
+			}
+			for name, e := range children(cl[i], p) {
+				if _, dup := union[name]; !dup {
+					union[name] = e.Dir
+				}
+			}
+		}
+		for _, name := range keysB(union) {
+			walk(path.Join(p, name), union[name])
+		}
+	}
+	walk(".", true)
+	var gotWalk []string
+	werr := fs.WalkDir(o, ".", func(p string, d fs.DirEntry, err error) error {
+		if err != nil {
+			return fmt.Errorf("at %q: %w", p, err)
+		}
+		gotWalk = append(gotWalk, p)
+		return nil
+	})
+	if werr != nil {
+		return fmt.Errorf("fs.WalkDir(overlay, \".\"): %v (the union model walks %v)", werr, wantWalk)
+	}
+	if strings.Join(gotWalk, "\x00") != strings.Join(wantWalk, "\x00") {
+		return fmt.Errorf("fs.WalkDir(overlay, \".\") visited %v, the union model %v", gotWalk, wantWalk)
+	}
 	return nil
 }
 
@@ -452,6 +620,12 @@ func classify(c Case) (bool, []string) {
 	for _, l := range c.Stack {
 		if l.Kind == "strict" {
 			cls = append(cls, "open-only-layer-with-ENOTDIR")
+			break
+		}
+	}
+	for _, l := range c.Stack {
+		if l.Kind == "sub" || l.Kind == "dirfs" {
+			cls = append(cls, "layer-kind-"+l.Kind)
 			break
 		}
 	}
@@ -564,7 +738,7 @@ func genLayer(t *rapid.T, idx int) Layer {
 			m[p] = Entry{Dir: true}
 		}
 	}
-	return Layer{Entries: m, Kind: rapid.SampledFrom([]string{"", "", "strict"}).Draw(t, "kind")}
+	return Layer{Entries: m, Kind: rapid.SampledFrom([]string{"", "", "strict", "sub", "dirfs"}).Draw(t, "kind")}
 }
 
 func replay(kind string, raw json.RawMessage) error {
